@@ -469,9 +469,176 @@ class AugAssign(ast.NodeTransformer):
         return node
 
 
+class MsgEdit(ast.NodeTransformer):
+    """error / warning / log message texts get a suffix (plain and f-strings)."""
+    def _edit(self, call):
+        for i, a in enumerate(call.args[:1]):
+            if isinstance(a, ast.Constant) and isinstance(a.value, str):
+                call.args[i] = ast.Constant(a.value + " (see the documentation)")
+            elif isinstance(a, ast.JoinedStr):
+                a.values.append(ast.Constant(" (see the documentation)"))
+        return call
+
+    def visit_Raise(self, node):
+        self.generic_visit(node)
+        if isinstance(node.exc, ast.Call):
+            self._edit(node.exc)
+        return node
+
+    def visit_Call(self, node):
+        self.generic_visit(node)
+        f = node.func
+        nm = f.attr if isinstance(f, ast.Attribute) else getattr(f, "id", "")
+        if nm in ("warn", "warning", "info", "debug", "error"):
+            self._edit(node)
+        return node
+
+
+class AddKwOnlyParam(ast.NodeTransformer):
+    """every plain function without **kwargs gets an unused keyword-only parameter."""
+    def visit_FunctionDef(self, node):
+        self.generic_visit(node)
+        decos = {ast.unparse(d) for d in node.decorator_list}
+        if node.args.kwarg is None and not any("setter" in d or "property" in d or "overload" in d
+                                               or "abstract" in d for d in decos) \
+                and not (node.name.startswith("__") and node.name.endswith("__")):
+            node.args.kwonlyargs.append(ast.arg(arg="_lsa_unused"))
+            node.args.kw_defaults.append(ast.Constant(None))
+        return node
+
+
+class ReorderDefs(ast.NodeTransformer):
+    """methods of a class / functions of a module in reverse order (assignments, fields and
+    decorated property groups keep their relative places: only runs of plain defs move)."""
+    def _reorder(self, body):
+        out, run = [], []
+
+        def plain(st):
+            return isinstance(st, ast.FunctionDef) and not st.decorator_list
+
+        for st in body:
+            if plain(st):
+                run.append(st)
+            else:
+                out.extend(reversed(run))
+                run = []
+                out.append(st)
+        out.extend(reversed(run))
+        return out
+
+    def visit_ClassDef(self, node):
+        self.generic_visit(node)
+        node.body = self._reorder(node.body)
+        return node
+
+    def visit_Module(self, node):
+        self.generic_visit(node)
+        # module-level functions may be used by later module-level statements: only
+        # runs of adjacent defs are reversed, which keeps every def before its first use
+        node.body = self._reorder(node.body)
+        return node
+
+
+class ImportAlias(ast.NodeTransformer):
+    """`import jax.numpy as jnp` -> `import jax.numpy as jnp_lsa` (+ all uses)."""
+    def __init__(self):
+        self.map = {}
+
+    def visit_Module(self, node):
+        for st in node.body:
+            if isinstance(st, ast.Import):
+                for a in st.names:
+                    if a.asname and a.asname in ("jnp", "np", "tfd", "tfb", "jd", "jb"):
+                        self.map[a.asname] = a.asname + "_lsa"
+                        a.asname = a.asname + "_lsa"
+            elif isinstance(st, ast.ImportFrom):
+                for a in st.names:
+                    if a.asname and a.asname in ("jnp", "np", "tfd", "tfb", "jd", "jb"):
+                        self.map[a.asname] = a.asname + "_lsa"
+                        a.asname = a.asname + "_lsa"
+        # a local binding of the same name anywhere in the module: leave the module alone
+        for x in ast.walk(node):
+            if isinstance(x, ast.Name) and isinstance(x.ctx, ast.Store) and x.id in self.map:
+                return node
+            if isinstance(x, ast.arg) and x.arg in self.map:
+                return node
+        self.generic_visit(node)
+        return node
+
+    def visit_Name(self, node):
+        if node.id in self.map:
+            node.id = self.map[node.id]
+        return node
+
+
+class WrapDelegate(ast.NodeTransformer):
+    """`def f(self, a, b=1): BODY`  ->  `def f(self, a, b=1): return self._f_lsa_impl(a, b)`
+    plus `def _f_lsa_impl(self, a, b): BODY` (plain methods / functions with simple
+    signatures, no decorators, no nested scopes reading the frame)."""
+    def _ok(self, fn):
+        a = fn.args
+        if fn.decorator_list or a.vararg or a.kwarg or a.kwonlyargs or a.posonlyargs:
+            return False
+        if fn.name.startswith("__") or uses_locals(fn):
+            return False
+        for x in ast.walk(fn):
+            if isinstance(x, (ast.Yield, ast.YieldFrom, ast.Await, ast.Nonlocal, ast.Global)):
+                return False
+            if isinstance(x, ast.Call) and isinstance(x.func, ast.Name) and x.func.id == "super":
+                return False
+        return len(fn.body) > 1 or not isinstance(fn.body[0], (ast.Pass, ast.Expr))
+
+    def _split(self, fn, method):
+        import copy
+        impl = copy.deepcopy(fn)
+        impl.name = f"_lsa_impl_{fn.name}"
+        impl.args.defaults = []
+        doc = ast.get_docstring(fn)
+        names = [x.arg for x in fn.args.args]
+        if method:
+            call = ast.Call(func=ast.Attribute(value=ast.Name(names[0], ast.Load()), attr=impl.name,
+                                               ctx=ast.Load()),
+                            args=[ast.Name(n_, ast.Load()) for n_ in names[1:]], keywords=[])
+        else:
+            call = ast.Call(func=ast.Name(impl.name, ast.Load()),
+                            args=[ast.Name(n_, ast.Load()) for n_ in names], keywords=[])
+        body = [ast.Expr(ast.Constant(doc))] if doc else []
+        if doc:
+            impl.body = impl.body[1:] or [ast.Pass()]
+        impl.returns = None
+        fn.body = body + [ast.Return(call)]
+        return [impl, fn]
+
+    def visit_ClassDef(self, node):
+        out = []
+        for st in node.body:
+            if isinstance(st, ast.FunctionDef) and self._ok(st) and st.args.args \
+                    and st.args.args[0].arg == "self":
+                out.extend(self._split(st, True))
+            else:
+                out.append(st)
+        node.body = out
+        return node
+
+    def visit_Module(self, node):
+        out = []
+        for st in node.body:
+            if isinstance(st, ast.FunctionDef) and self._ok(st):
+                out.extend(self._split(st, False))
+            elif isinstance(st, ast.ClassDef):
+                out.append(self.visit_ClassDef(st))
+            else:
+                out.append(st)
+        node.body = out
+        return node
+
+
+
+
 TRANSFORMS = ["inline_calls", "strip_ann", "ret_tmp", "if_swap", "cmp_flip", "rename", "kwargs", "assign_tmp",
               "unpack_index", "and_split", "ternary_if", "demorgan", "chain_split", "swap_indep",
-              "lambda_def", "comp_loop", "add_noise", "else_after_return", "aug_assign"]
+              "lambda_def", "comp_loop", "add_noise", "else_after_return", "aug_assign",
+              "msg_edit", "add_kwonly", "reorder_defs", "import_alias", "wrap_delegate"]
 
 
 def apply(name, repo, root):
@@ -482,7 +649,9 @@ def apply(name, repo, root):
              "and_split": AndSplit, "strip_ann": StripAnn, "ternary_if": TernaryToIf,
              "demorgan": DeMorgan, "chain_split": ChainSplit, "swap_indep": SwapIndep,
              "lambda_def": LambdaToDef, "comp_loop": CompToLoop, "add_noise": AddNoise,
-             "else_after_return": ElseAfterReturn, "aug_assign": AugAssign}.get(name)
+             "else_after_return": ElseAfterReturn, "aug_assign": AugAssign,
+             "msg_edit": MsgEdit, "add_kwonly": AddKwOnlyParam, "reorder_defs": ReorderDefs,
+             "import_alias": ImportAlias, "wrap_delegate": WrapDelegate}.get(name)
         tree = (Kwargs(repo, mi) if name == "kwargs" else InlineStmtCalls(repo, mi)
                 if name == "inline_calls" else t()).visit(tree)
         ast.fix_missing_locations(tree)
